@@ -83,6 +83,7 @@ func Worker(shard, n int, tier string) *engine.Result {
 		res.Transitions++
 		res.States[fmt.Sprintf("%s@%d", cur, k)] = 0
 	}
+	poolPokeWorker(f, res, shard, n)
 	deadline := time.Now().Add(25 * time.Minute)
 	for i, p := range ps {
 		if i%n != shard {
